@@ -126,6 +126,8 @@ class Decoder:
                     if d.get("k") != "nil":
                         props[p] = d
             return {"k": "schema", "cls": cname, "props": props}
+        if cname == "UserCustomSchema":
+            return {"k": "custom", "inner": self.decode(M.attr("inner")(v), depth + 1)}
         if cname.endswith("Props") and cname in self.ct.ids and self.ct.is_sub(cname, "Props"):
             reg = M.attr("_registry")(v)
             n = max(0, min(self._int(M.klen(reg)), self.max_len))
